@@ -28,6 +28,28 @@ Definition enc_cmd (c : cmd) : list Z :=
   end.
 Definition enc_cmds (cs : list cmd) : list Z := flat_map enc_cmd cs.
 
+(* a well-formed SGR parameter list: classic values (-1 = omitted), 38;5;n / 48;5;n with n in 0..255,
+   38;2;r;g;b / 48;2;r;g;b with components in 0..255 *)
+Definition sgr_classic : list Z :=
+  [-1; 0; 1; 4; 5; 7; 24; 25; 27; 30; 31; 32; 33; 34; 35; 36; 37; 39; 40; 41; 42; 43; 44; 45; 46; 47; 49].
+Definition in255 (c : Z) : bool := (0 <=? c) && (c <=? 255).
+Fixpoint sgr_ok (l : list Z) : bool :=
+  match l with
+  | [] => true
+  | n :: r =>
+      if (n =? 38) || (n =? 48) then
+        match r with
+        | b :: c :: r' =>
+            if b =? 5 then in255 c && sgr_ok r'
+            else match r' with
+                 | cg :: cb :: r'' => (b =? 2) && in255 c && in255 cg && in255 cb && sgr_ok r''
+                 | _ => false
+                 end
+        | _ => false
+        end
+      else memz n sgr_classic && sgr_ok r
+  end.
+
 (* commands of the compared subset with parameters in their domain *)
 Definition cmd_ok (c : cmd) : bool :=
   match c with
@@ -35,31 +57,34 @@ Definition cmd_ok (c : cmd) : bool :=
   | CEl m | CEd m => (m <=? 2)
   | CDsr n => (n =? 5) || (n =? 6)
   | CDesig g c => ((g =? 0) || (g =? 1)) && ((c =? 48) || (c =? 66))
-  | CSgr l => forallb (fun n => memz n [-1; 0; 1; 4; 5; 7; 24; 25; 27; 30; 31; 32; 33; 34; 35; 36; 37; 39;
-                                          40; 41; 42; 43; 44; 45; 46; 47; 49]) l
+  | CSgr l => sgr_ok l
   | _ => true
   end.
 
-(* the emulator's rendition read as a VT100 rendition: in 16-colour mode bold is shown by the bright
-   variant of the colour *)
-Definition attr_as_ref (a : option attr) : rattr :=
-  match a with
-  | None => ra0
-  | Some a =>
-      let fg := match a_fg a with
-                | Some n => Some (if (a_colors a =? 16) && a_bold a && (8 <=? n) then n - 8 else n)
-                | None => None
-                end in
-      mkRA fg (a_bg a) (a_bold a) (a_ul a) (a_blink a) (a_so a)
+(* does the emulator's rendition show the reference rendition?  The number stored in the AttrSpec depends on its
+   colour depth: at 16 colours bold is shown by the bright variant of the foreground (n + 8), at 2**24 colours a
+   palette index c is stored as the rgb value _COLOR_VALUES_256[c]; reference colours: c < 256 palette index,
+   256 + rgb direct colour *)
+Definition palette (n : Z) : Z := match nthz color_values_256_gen n with Some v => v | None => 0 end.
+Definition colour_shows (num : oz) (colors : Z) (bold fg_side : bool) (c : oz) : bool :=
+  match num, c with
+  | None, None => true
+  | Some n, Some c =>
+      if colors =? 16777216 then n =? (if c <? 256 then palette c else c - 256)
+      else (c <? 256) && ((if (colors =? 16) && fg_side && bold && (8 <=? n) then n - 8 else n) =? c)
+  | _, _ => false
   end.
-Definition oz_eqb (a b : oz) : bool :=
-  match a, b with None, None => true | Some x, Some y => x =? y | _, _ => false end.
-Definition rattr_eqb (a b : rattr) : bool :=
-  oz_eqb (r_fg a) (r_fg b) && oz_eqb (r_bg a) (r_bg b) && Bool.eqb (r_bold a) (r_bold b)
-  && Bool.eqb (r_ul a) (r_ul b) && Bool.eqb (r_blink a) (r_blink b) && Bool.eqb (r_rev a) (r_rev b).
+Definition attr_shows (a : option attr) (ra : rattr) : bool :=
+  match a with
+  | None => match r_fg ra, r_bg ra with None, None => negb (r_bold ra || r_ul ra || r_blink ra || r_rev ra) | _, _ => false end
+  | Some a =>
+      colour_shows (a_fg a) (a_colors a) (a_bold a) true (r_fg ra) && colour_shows (a_bg a) (a_colors a) (a_bold a) false (r_bg ra)
+      && Bool.eqb (a_bold a) (r_bold ra) && Bool.eqb (a_ul a) (r_ul ra) && Bool.eqb (a_blink a) (r_blink ra)
+      && Bool.eqb (a_so a) (r_rev ra)
+  end.
 Definition cell_agrees (c : cell) (r : rcell) : bool :=
   let '(a, cs, ch) := c in
-  list_eqb ch [fst r] && match snd r with None => true | Some (ra, rcs) => rattr_eqb (attr_as_ref a) ra && (cs =? rcs) end.
+  list_eqb ch [fst r] && match snd r with None => true | Some (ra, rcs) => attr_shows a ra && (cs =? rcs) end.
 Fixpoint all2 {A B} (f : A -> B -> bool) (l : list A) (m : list B) : bool :=
   match l, m with
   | [], [] => true
